@@ -153,9 +153,11 @@ func extractMethodsFromNamedType(named *types.Named) []TypeMethod {
 	return methods
 }
 
-// isPointerReceiver checks if receiver type is a pointer
+// isPointerReceiver checks if receiver type is a pointer.
+// The receiver may be declared through an alias of a pointer type
+// (type P = *T; func (p P) M()), so aliases are resolved first.
 func isPointerReceiver(t types.Type) bool {
-	_, ok := t.(*types.Pointer)
+	_, ok := types.Unalias(t).(*types.Pointer)
 	return ok
 }
 
